@@ -4,3 +4,6 @@ out=$1; repo=${2:-/repo}
 cd $repo && VERIF_REPO=$repo /venv/bin/python /verif/tools/runshim.py tests -q -p no:cacheprovider --continue-on-collection-errors \
    -k "not emulator and not selene" -x --maxfail=100000 -rfE 2>&1 | grep -E "^(FAILED|ERROR) " | sed 's/ - .*//' | sort > $out
 wc -l $out
+# compare with the failing ids of the PRISTINE pinned tree (tools/repo_tests_baseline.txt, 87 ids, all caused by
+# the sandbox's newer hugr / tket-exts): a fix must reproduce exactly this set
+sed "s#$repo/##" $out | diff /verif/tools/repo_tests_baseline.txt - > /dev/null && echo "SAME-AS-PRISTINE" || echo "DIFFERS-FROM-PRISTINE (diff /verif/tools/repo_tests_baseline.txt <(sed 's#$repo/##' $out))"
